@@ -409,7 +409,7 @@ PROPS["C13"] = {
     "kani": [],
     "assumptions": [A_STD, A_KEY, A_U5, A_C13, A_TERM, A_TEST_CFG],
     "level_text": "One evaluation step is decided by proof on the real text of Chitchat::update_nodes_liveness, for every state satisfying the representation invariant: afterwards the watch value lists exactly the live members (local node included) that have a state satisfying the extra predicate, each snapshot carrying the member's current max version; a new value is published iff the (live member -> max version, predicate outcome) map differs from the one of the previous evaluation, in particular whenever the live set or a live member's max version changed; the node GC at the end of the step removes only non-live members. The two closure bodies are proved as slices (first: (max version, predicate outcome) iff the member has a state; second: a clone of the state iff it satisfies the predicate).",
-    "level_note": "The two collect() chains, HashMap inequality and the watch sender are contracted stubs (A-iter / A-watch), so 'the map really is what the chain builds' and 'the receiver really sees what was sent' are checked only by the bounded driver c13_watch on the real function (every sequence of <= 6/7 operations over heartbeats, silence, key writes / TTL / tombstones, local writes, key GC, evaluations; with and without a predicate), labelled bounded. Lifting 'every step' to 'every history' uses that previous_live_nodes and the sender are private to this function. The TTL + key-GC history that broke the first sentence on the original code (F-6, fixed by 03fc0b1) is part of the driver's scope.",
+    "level_note": "The two collect() chains, HashMap inequality and the watch sender are contracted stubs (A-iter / A-watch), so 'the map really is what the chain builds' and 'the receiver really sees what was sent' are checked only by the bounded driver c13_watch on the real function (every sequence of <= 5/6 operations over heartbeats, selective silence, revivals, a third member, key writes / TTL / tombstones, a reset to a lower max version, local writes, key GC, evaluations; with and without a predicate), labelled bounded. Lifting 'every step' to 'every history' uses that previous_live_nodes and the sender are private to this function. The TTL + key-GC history that broke the first sentence on the original code (F-6, fixed by 03fc0b1) is part of the driver's scope.",
     "technique": "Verus contracts on the extracted update_nodes_liveness (closure bodies as slices, collect chains as contracted stubs, ghost views of the watch sender) + bounded native comparison on the real function",
     "explanation": "",
     "design_ref": "DESIGN.md §11b",
@@ -458,6 +458,8 @@ PROPS["C13"]["verus"].append({"unit": U4, "fns": ["FailureDetector::new"]})
 PROPS["C15"]["verus"].append({"unit": U1, "fns": ["NodeState::set_versioned_value"]})
 PROPS["C15"]["level_text"] += " WHEN listeners are triggered is proved at the call site inside the verified NodeState::set_versioned_value (ghost-guarded call): only for an update that was accepted (no entry, or a strictly older one) and is not a tombstone."
 PROPS["C15"]["level_note"] = "Deductive obligations exist for the bookkeeping and the trigger condition only; the dispatch itself (which registered prefixes match a key, each exactly once) stays bounded - string-order reasoning over BTreeMap::range is outside both verifiers. Claimed at exploration level with the property's own exhaustive scope; the finding F-2 it exposed is repaired (known_findings.json)."
+PROPS["C07"]["level_text"] += " The size bound is proved for every budget (100..65,535), not only up to 16 KiB, as long as no single op of the offered members (a member header or one key-value) exceeds one 16 KiB block of the compressed stream (small_ops)."
+PROPS["C07"]["level_note"] = "Only for an op larger than the 16 KiB block (a key-value of more than about 16 KiB) is the size bound not proved: the code's own upper bound is short by 3 bytes per extra block if every block were incompressible; measured: 16 KiB blocks of valid UTF-8 (at most 7 bits of entropy per byte) always compress by more than that, so no overshoot is reachable - an unchecked compressibility assumption, exercised by c07_window / c07_reply_size. The content clause rests on the assumed contract of stale_key_values (A-stale) and of the first loop (which members are offered with which start version: sender_decision is proved, the map iteration and the scheduled-for-deletion filter are not); both are checked on the real function by the bounded driver c07_window; the end-to-end reply length incl. the 4-byte header and own digest by c07_reply_size."
 U2_CODEC = ["ChitchatId::serialize", "ChitchatId::serialized_len", "Heartbeat::serialize", "Heartbeat::serialized_len", "NodeDigest::serialize",
             "NodeDigest::serialized_len", "alloc::string::String::serialize", "alloc::string::String::serialized_len",
             "DeletionStatusMutation::serialize", "DeletionStatusMutation::serialized_len", "KeyValueMutationRef::serialize",
